@@ -176,11 +176,12 @@ pub fn parse_debug(text: &str) -> Facts {
 /// v_print: `ν{v}⟦Δ, a, b⟧`
 pub fn parse_vprint(text: &str, v: usize) -> Option<(bool, Vec<String>)> {
     let body = text.strip_prefix(&format!("ν{v}⟦"))?.strip_suffix('⟧')?;
-    let mut parts: Vec<&str> = if body.is_empty() { vec![] } else { body.split(", ").collect() };
-    let marker = parts.first() == Some(&"Δ");
-    if marker {
-        parts.remove(0);
-    }
+    // the data marker is the PREFIX "Δ, " (present even when there is no label); a label that is itself Δ prints bare
+    let (marker, rest) = match body.strip_prefix("Δ, ") {
+        Some(r) => (true, r),
+        None => (false, body),
+    };
+    let parts: Vec<&str> = if rest.is_empty() { vec![] } else { rest.split(", ").collect() };
     Some((marker, parts.into_iter().filter(|p| !p.is_empty()).map(|s| s.to_string()).collect()))
 }
 
@@ -361,4 +362,80 @@ pub fn inspect_event(w: &World, ev: &SpecEv, path: &[HCall], o: &Opts, sum: &mut
         };
         witness("inspect", e, w, path, o, sum, wfile, tid);
     }
+}
+
+
+/// Emit one observer event per output (XML, DOT, Debug, Display, v_print and inspect of every present vertex) for
+/// handle `h` of a world, unconditionally: the judge compares the parsed facts with the reference state.
+pub fn observe_all(w: &World, h: usize, tid: usize, what: &[String], out: &mut dyn std::io::Write) -> usize {
+    let has = |k: &str| what.is_empty() || what.iter().any(|x| x == k);
+    let mut n = 0;
+    let mut emit = |mut e: Value, out: &mut dyn std::io::Write| {
+        e["t"] = json!(tid);
+        e["h"] = json!(h);
+        writeln!(out, "{e}").unwrap();
+    };
+    if has("xml") {
+        let facts = match w.g(h).to_xml() {
+            Ok(Ok(x)) => parse_xml(&x),
+            Ok(Err(e)) => Facts::bad(&format!("to_xml returned Err: {e}")),
+            Err(p) => Facts::bad(&format!("to_xml panicked: {p}")),
+        };
+        let mut e = facts.to_json();
+        e["op"] = json!("xml");
+        e["stable"] = json!(true);
+        emit(e, out);
+        n += 1;
+    }
+    if has("dot") {
+        let facts = match w.g(h).to_dot() {
+            Ok(x) => parse_dot(&x),
+            Err(p) => Facts::bad(&format!("to_dot panicked: {p}")),
+        };
+        let mut e = facts.to_json();
+        e["op"] = json!("dot");
+        e["stable"] = json!(true);
+        emit(e, out);
+        n += 1;
+    }
+    if has("debug") {
+        for (kind, text) in [("debug", w.g(h).debug()), ("display", w.g(h).display())] {
+            let facts = match text {
+                Ok(x) => parse_debug(&x),
+                Err(p) => Facts::bad(&format!("{kind} panicked: {p}")),
+            };
+            let mut e = facts.to_json();
+            e["op"] = json!(kind);
+            e["stable"] = json!(true);
+            emit(e, out);
+            n += 1;
+        }
+        for v in w.g(h).keys().unwrap_or_default() {
+            let parsed = match w.g(h).v_print(v) {
+                Ok(Ok(t)) => parse_vprint(&t, v),
+                _ => None,
+            };
+            let e = match parsed {
+                Some((m, ls)) => json!({"op": "vprint", "v": v, "marker": m, "labels": ls, "wellformed": true}),
+                None => json!({"op": "vprint", "v": v, "marker": false, "labels": [], "wellformed": false}),
+            };
+            emit(e, out);
+            n += 1;
+        }
+    }
+    if has("inspect") {
+        for v in w.g(h).keys().unwrap_or_default() {
+            let parsed = match w.g(h).inspect(v) {
+                Ok(Ok(t)) => parse_inspect(&t, v),
+                _ => None,
+            };
+            let e = match parsed {
+                Some(es) => json!({"op": "inspect", "v": v, "edges": es.iter().map(|(u, a, t)| json!([u, a, t])).collect::<Vec<_>>(), "wellformed": true}),
+                None => json!({"op": "inspect", "v": v, "edges": [], "wellformed": false}),
+            };
+            emit(e, out);
+            n += 1;
+        }
+    }
+    n
 }
